@@ -148,6 +148,10 @@ func genMapRich(rt *rapid.T, avoid map[string]bool) *dsl.Program {
 	if rapid.Bool().Draw(rt, "second_match") {
 		dsl.AddSecondMatch(rt, p)
 	}
+	// the same inline object declared in two packets: the generators keep per-name state
+	if !avoid["inline:shared-name"] && rapid.IntRange(0, 3).Draw(rt, "share_inline") == 0 {
+		dsl.ShareInline(rt, p)
+	}
 	return p
 }
 
@@ -169,7 +173,16 @@ func TestC13(t *testing.T) {
 	c.Check(t, func(rt *rapid.T) {
 		p := genMapRich(rt, avoid)
 		n++
-		k := c13Case{Text: dsl.PlainText(p), CLI: n%25 == 1}
+		// random layout: several declarations may share a line (line numbers feed some orderings)
+		lay := dsl.RandLayout{T: rt, Label: "lay"}
+		switch rapid.IntRange(0, 2).Draw(rt, "layout") {
+		case 1:
+			lay.Wild = true
+		case 2:
+			lay.Dense = true
+		}
+		text, _ := dsl.Render(p, dsl.Plain{}, lay, dsl.RenderOpts{NoPadRewrites: true})
+		k := c13Case{Text: text, CLI: n%25 == 1}
 		c.Eval()
 		if mapRich(p) {
 			c.NonTrivial(pbt.Hash(k.Text), func() any { return map[string]any{"dsl": clip(k.Text, 700)} })
@@ -392,7 +405,7 @@ func TestC08(t *testing.T) {
 	})
 	kinds := []string{"alias", "dyn", "zchar", "defpad", "padarg", "attrplace", "defopt", "expand", "aslist", "via", "semi", "paircomma"}
 	c.Check(t, func(rt *rapid.T) {
-		p := dsl.GenProgram(rt, dsl.GenCfg{MaxPackets: 4, Docs: true, Avoid: avoid})
+		p := dsl.GenProgram(rt, dsl.GenCfg{MaxPackets: 4, Docs: true, Avoid: avoid, MetaShare: rapid.IntRange(0, 3).Draw(rt, "metashare") == 0})
 		ua, ub := map[string]int{}, map[string]int{}
 		var only string
 		if rapid.Bool().Draw(rt, "single_kind") {
